@@ -510,6 +510,19 @@ def w_history(case):
                      'parameters in original order (%s)' % kind,
                      'history': history, 'expected': e_names,
                      'observed': [g_names, ad.n_of(obj)], 'behaviour': 'names'})
+    # the list handed out is the caller's
+    for getter in ('get_parameter_names', 'parameters'):
+        if hasattr(obj, getter):
+            raw = getattr(obj, getter)()
+            if isinstance(raw, list):
+                raw.append('appended by the caller')
+                if list(getattr(obj, getter)()) != e_names and g_names == e_names:
+                    viol.append({'sub': 'list_alias', 'message': 'the name list '
+                                 'handed out by the reduced %s is its own list'
+                                 % kind, 'history': history, 'expected': e_names,
+                                 'observed': list(getattr(obj, getter)()),
+                                 'behaviour': 'list_alias'})
+            break
     nf = ad.n_fixed(obj)
     if nf is not None and nf != n - len(free):
         viol.append({'sub': 'n_fixed', 'message': 'n_fixed_parameters wrong (%s)'
@@ -591,6 +604,64 @@ def w_pop_nids(case):
             'violations': viol}
 
 
+def w_zero(case):
+    """A parameter fixed at exactly 0 (0.0, integer 0, -0.0) is fixed: it leaves the
+    names / counts, and the value is the unfixed object's at the substituted vector
+    (compared by class where 0 is outside the support)."""
+    kind, i, zero = case['kind'], case['index'], case['zero']
+    ad = adapter(kind)
+    n = len(ad.names)
+    obj = ad.make()
+    viol = []
+    z = {'0.0': 0.0, '0': 0, '-0.0': -0.0}[zero]
+    ad.fix(obj, {ad.names[i]: z})
+    free = [j for j in range(n) if j != i]
+    e_names = [ad.names[j] for j in free]
+    if ad.names_of(obj) != e_names or ad.n_of(obj) != len(free):
+        viol.append({'sub': 'zero_names', 'message': 'a parameter fixed at %s is '
+                     'still listed as free (%s)' % (zero, kind),
+                     'expected': e_names, 'observed': ad.names_of(obj),
+                     'behaviour': 'zero_fix'})
+    elif free:
+        full = list(ad.base)
+        full[i] = 0.0
+        x = [ad.base[j] for j in free]
+        import warnings
+        with warnings.catch_warnings():
+            warnings.simplefilter('ignore')
+            try:
+                got = ad.observe(obj, x, free, full) if isinstance(ad, PopAdapter) \
+                    else ad.observe(obj, x, free)
+                exp = ad.reference(full, free)
+            except Exception:
+                # (0 may be outside what the unfixed object accepts: names only)
+                got = exp = {}
+        for k in exp:
+            if k not in ('ll', 'y', 'post', 'sample'):
+                continue
+            if not tol.allclose(np.asarray(got[k], dtype=float),
+                                np.asarray(exp[k], dtype=float), 1e-8, 1e-10):
+                viol.append({'sub': 'zero_subst', 'message': '%s with a parameter '
+                             'fixed at %s differs from the unfixed %s at the '
+                             'substituted vector' % (k, zero, kind),
+                             'expected': exp[k], 'observed': got[k],
+                             'behaviour': 'zero_fix'})
+    # re-fixing at 0 keeps it fixed; releasing restores the full list
+    ad.fix(obj, {ad.names[i]: z})
+    if ad.names_of(obj) != e_names:
+        viol.append({'sub': 'zero_refix', 'message': 're-fixing a parameter at %s '
+                     'released it (%s)' % (zero, kind), 'expected': e_names,
+                     'observed': ad.names_of(obj), 'behaviour': 'zero_fix'})
+    ad.fix(obj, {ad.names[i]: None})
+    if ad.names_of(obj) != list(ad.names):
+        viol.append({'sub': 'zero_release', 'message': 'releasing after a fix at %s '
+                     'does not restore the names (%s)' % (zero, kind),
+                     'expected': list(ad.names), 'observed': ad.names_of(obj),
+                     'behaviour': 'zero_fix'})
+    return {'transitions': 5, 'outcome': key_of([kind, i, zero]),
+            'violations': viol}
+
+
 def ops_for(n, with_eval=True):
     ops = []
     for i in range(n):
@@ -609,7 +680,7 @@ def ops_for(n, with_eval=True):
     return ops
 
 
-WORKERS = {'pop_nids': w_pop_nids}
+WORKERS = {'pop_nids': w_pop_nids, 'zero_values': w_zero}
 ALL_KINDS = ['err:G', 'err:M', 'err:CM', 'err:LN', 'mech:toy', 'mech:sbml',
              'mech:toy:sens', 'mech:sbml:sens', 'mech:sbmlren', 'mech:sbmlren:sens',
              'll',
@@ -683,9 +754,19 @@ def build(tier, seed):
                     nids.append({'spec': spec, 'n_before': a, 'n_after': b,
                                  'fix': [[i, 0.77]]})
     from ..core.engine import Part
+    zeros = []
+    for kind in ALL_KINDS:
+        if kind.endswith(':sens') and 'sbml' in kind:
+            continue
+        for i in range(len(adapter(kind).names)):
+            for zero in ('0.0', '0', '-0.0'):
+                zeros.append({'kind': kind, 'index': i, 'zero': zero})
     return {
         'parts': [Part('pop_nids', nids, w_pop_nids,
-                       'fix by name, then change the number of individuals')],
+                       'fix by name, then change the number of individuals'),
+                  Part('zero_values', zeros, w_zero,
+                       'every parameter of every reducible object fixed at 0.0 / 0 '
+                       '/ -0.0, re-fixed, released')],
         'searches': [make_search(k, depth) for k in kinds],
         'bounds': {'objects': kinds, 'values_per_parameter': ['free', 'v1', 'v2'],
                    'max_parameters': 7},
